@@ -129,7 +129,12 @@ CLAIMED = {
         "storage frontends with read-only / take_only / exclude filters and independent contents: the spec defines which frontend a "
         "loaded type comes from and which frontends a saved type goes to (P-level) and transcribes the loops of "
         "_get_partial_loader_for / _add_saver; the harness compares loader origins, savers per frontend and each directory's "
-        "contents after a real run.",
+        "contents after a real run. spec/Inline.tla transcribes ParallelSourcePlugin.inline_plugins (what multiprocessing does to the "
+        "components: which plugins are merged into the worker-side plugin, which outputs it sends, which savers move into it) with "
+        "the P-level that every needed type still has exactly one origin, no plugin runs twice, every saver is fed and the merged "
+        "plugin's inputs are served; the expected rewriting is compared with the real inline_plugins on requests x parallel "
+        "attributes x rechunk_on_save, and real multiprocess runs (worker processes) are compared with single-thread runs. The "
+        "PostOffice logs of all single-thread runs are judged by TLC against the P-level of PostOffice.tla (PostOfficeObs.tla).",
    note="Trusted: TLC; stored subsets prepared by copying data made under an all-ALWAYS policy. Scope: chain, multi-output (one / both outputs consumed, one through an "
         "ExhaustPlugin) and diamond graphs of <=5 types, 12 policy assignments, all stored subsets x targets x save= x 6 modifiers x forbid settings "
         "(quick tier executes a seeded sample of the enumerated requests, thorough all).",
